@@ -309,7 +309,18 @@ class GroupedType(BaseDataType):
 
 
     def __setitem__(self, idx, value):
+        old = self._avps[idx]
         self._avps[idx] = value
+
+        #: The name that referred to the replaced member now refers to the
+        #: new one, and the data is the encoding of the members as they are.
+        for key, item in self.__dict__.items():
+            if item is old and key != "_avps":
+                self.__dict__[key] = value
+
+        self._data = b""
+        for avp in self._avps:
+            self._data += avp.dump()
 
 
     def append(self, avp):
